@@ -4,7 +4,7 @@
                                    (poscar, chgcar, locpot: an `ok` line ends with ` zsum=<sum of atnums>`)
                                    (`a`: two hex digits per character, `u`: four hex digits per code point)
    pynum int|float|title|isdigit|split <a|u> <hex>
-   rctor <atcoords> <atnums> <atcorenums> <atcharges> <bonds> <cellvecs>   → ok | TypeError
+   rctor <atcoords> <atnums> <atcorenums> <atcharges> <bonds> <cellvecs> <atmasses>   → ok | TypeError
                                    (shape `-` absent, `s` scalar, `3x3`; atcharges `-` or `3,4`) -/
 import Iodata.Gen.Layouts
 import Iodata.Model.Rd.All
@@ -45,6 +45,7 @@ def readFmt (fmt : String) (ls : List Str) : Option (Out RObj) :=
   | "poscar" => some (Vasp.readPoscar T ls)
   | "chgcar" => some (Vasp.readChgcar T ls)
   | "locpot" => some (Vasp.readLocpot T ls)
+  | "crd" => some (Crd.read ls)
   | _ => none
 
 /-- value fingerprint appended to the response of the VASP formats: `atnums.sum()` of a returned result -/
@@ -73,9 +74,9 @@ def handle : List String → Option String
   | ["pynum", "isdigit", enc, h] => some (if isDigitStrU (decText enc h) then "ok 1" else "ok 0")
   | ["pynum", "split", enc, h] => some ("ok " ++ "/".intercalate ((splitWs (decText enc h)).map encU))
   | ["pynum", "strip", enc, h] => some ("ok " ++ encU (strip (decText enc h)))
-  | ["rctor", a, b, c, d, e, f] =>
+  | ["rctor", a, b, c, d, e, f, g] =>
     let o : RObj := { atcoords := decShape a, atnums := decShape b, atcorenums := decShape c,
-                      atcharges := decLens d, bonds := decShape e, cellvecs := decShape f }
+                      atcharges := decLens d, bonds := decShape e, cellvecs := decShape f, atmasses := decShape g }
     some (match ctorE o with | none => "ok" | some c => c.toString)
   | _ => none
 
